@@ -147,9 +147,23 @@ pub fn def_c09() -> PropDef {
                 Tier::Thorough => (25_000, 30, 2, 40_000),
             };
             par::run_prop(ctx, "C09", par::ParGen { cache_simple_only: true, ..Default::default() }, rc, sb, bound, mr);
+            // larger searches (10..=16 item knapsacks, set packing with 11..=15 items) with the cache on, sequential
+            // and with 2-4 real worker threads: thousands of threshold reads and writes per run
+            if ctx.stats.violations.is_empty() {
+                use crate::families::*;
+                let cases = ctx.tier.pick(2_000, 20_000);
+                let strat = (fam_case_strategy(vec![10, 11], vec![DdKind::Lel, DdKind::Frontier, DdKind::Pooled], false), prop_oneof![1 => Just(None), 2 => (2usize..=4).prop_map(Some)]).prop_map(|(mut c, threads)| {
+                    c.cache = CacheKind::Simple;
+                    c.threads = threads;
+                    c
+                });
+                ctx.pt_run("large-families-cache-on", cases, strat, |c| serde_json::to_value(c).unwrap(), |c, obs| crate::props::fam::eval_family(c, obs, "C09"));
+            }
         },
         replay: |part, case, known| {
-            if part.starts_with("par") {
+            if part == "large-families-cache-on" {
+                crate::props::fam::replay_family(case, "C09")
+            } else if part.starts_with("par") {
                 par::replay(part, case, known, "C09")
             } else {
                 match decode::<SolveCase>(case) {
